@@ -434,19 +434,19 @@ func c14Describe(calls []*c14Call) []string {
 type c14Viol struct{ Key, Msg string }
 
 type c14Result struct {
-	Scenario               string     `json:"scenario"`
-	Faults                 []c14Fault `json:"faults"`
-	BuildErr               string     `json:"build_error,omitempty"`
-	Steps                  []*c14Step `json:"steps,omitempty"`
-	Outcome                string     `json:"outcome"`
-	Ambiguous              bool       `json:"ambiguous,omitempty"`
-	Followup               string     `json:"followup,omitempty"`
-	Violations             []c14Viol  `json:"-"`
-	HarnessErr             string     `json:"-"`
-	hangBound, hangUnbound []string
+	Scenario                               string     `json:"scenario"`
+	Faults                                 []c14Fault `json:"faults"`
+	BuildErr                               string     `json:"build_error,omitempty"`
+	Steps                                  []*c14Step `json:"steps,omitempty"`
+	Outcome                                string     `json:"outcome"`
+	Ambiguous                              bool       `json:"ambiguous,omitempty"`
+	Followup                               string     `json:"followup,omitempty"`
+	Violations                             []c14Viol  `json:"-"`
+	HarnessErr                             string     `json:"-"`
+	hangBound, hangUnbound                 []string
 	pastExpiryRefused, pastExpiryRefreshed int
-	split                  bool
-	arities                []int
+	split                                  bool
+	arities                                []int
 }
 
 func (r *c14Result) observation() string {
@@ -1011,7 +1011,7 @@ func c14Run(env *c14Env, sc *c14Scenario, x *explore.Exec) *c14Result {
 	bearer := ""
 
 	var flow []*c14Step // the requests made under the explorer's choices
-	pastExpiry := "" // the stored session that has expired by the time of the explored requests
+	pastExpiry := ""    // the stored session that has expired by the time of the explored requests
 	switch sc.Flow {
 	case "login":
 		start := e.serve(b, "start", px.Opts.ProxyPrefix+"/start?rd=%2Fpage")
